@@ -332,6 +332,8 @@ def _out_identity(conf_id, op, call):
     scope = [e.get("post") for e in call["log"] if e["kind"] in ("scope_seed", "seed")]
     draws = [(e["pre"], e["req"]) for e in call["log"] if e["kind"] == "draw"]
     kern = [(e["name"], e["seed"]) for e in call["log"] if e["kind"] == "kernel"]
+    if not draws:
+        scope = []      # nothing was drawn: the outcome (an exception) cannot depend on the seed
     return RC.sha(conf_id, op["shape"], op["acs"], call["err"], call.get("mask"), scope, draws, kern)
 
 
@@ -362,7 +364,7 @@ def correspondence(ctx: Ctx):
                 snaps.append(st["snap"])
             elif k == "call":
                 cid = conf_ids.setdefault(json.dumps(h["confs"][op["inst"]], sort_keys=True), len(conf_ids))
-                key = keys.setdefault((cid, tuple(op["shape"]), op["acs"], op.get("fault")), len(keys))
+                key = keys.setdefault((cid, tuple(op["shape"]), op["acs"]), len(keys))
                 sd = -1 if op["seed"] is None else seeds.setdefault(json.dumps(op["seed"]), len(seeds))
                 groups.append([0, op["inst"], key, sd] + _events(table, st["call"], reqs))
                 snaps.append(st["snap"])
@@ -386,7 +388,7 @@ def correspondence(ctx: Ctx):
                     masks = st["call"].get("masks") or []
                     pcall = {"err": st["call"]["err"] if n_sub == len(subs) - 1 else None,
                              "mask": masks[n_sub] if n_sub < len(masks) else None, "log": sub}
-                    key = keys.setdefault((cid, tuple(pop["shape"]), acs, None), len(keys))
+                    key = keys.setdefault((cid, tuple(pop["shape"]), acs), len(keys))
                     groups.append([0, op["inst"], key, sd] + _events(table, pcall, reqs))
                     snaps.append(st["snap"])
                     outs.append(_out_identity(cid, pop, pcall))
@@ -474,8 +476,10 @@ def _check_history(h, table):
                 yield Violation(f"transform-mask-differs/{tag}",
                                 "CreateSamplingMask(use_seed) on a sample with this file name gives another mask than "
                                 "mask_func(shape, seed=tuple(map(ord, filename)))", dict(rep, failing_op=op))
-        if op["op"] == "transform" and st["call"]["err"] is not None:
-            yield Violation(f"transform-raises/{tag}", f"CreateSamplingMask raises {st['call']['err']}", dict(rep, failing_op=op))
+        if op["op"] == "transform" and op.get("same") and (st["call"]["err"] is None) != (obs_mask["err"] is None):
+            yield Violation(f"transform-outcome-differs/{tag}",
+                            f"CreateSamplingMask: {st['call']['err']} but the direct seeded call: {obs_mask['err']}",
+                            dict(rep, failing_op=op))
     # repeated identical seeded calls inside the history
     seen = {}
     for op, st in zip(h["ops"], res["steps"]):
